@@ -722,18 +722,12 @@ class Qobj:
         """Dual channel of quantum object representing a completely positive
         map.
         """
-        # Uses the technique of Johnston and Kribs (arXiv:1102.0948), which
-        # is only valid for completely positive maps.
         if not self.iscp:
             raise ValueError("Dual channels are only implemented for CP maps.")
-        J = qutip.to_choi(self)
-        tensor_idxs = enumerate_flat(J.dims)
-        J_dual = qutip.tensor_swap(J, *(
-                list(zip(tensor_idxs[0][1], tensor_idxs[0][0])) +
-                list(zip(tensor_idxs[1][1], tensor_idxs[1][0]))
-        )).trans()
-        J_dual.superrep = 'choi'
-        return J_dual
+        # The dual map is the adjoint for the Hilbert-Schmidt inner product:
+        # its supermatrix is the adjoint of the supermatrix of the map. This
+        # also holds when the input and output spaces differ.
+        return qutip.to_choi(qutip.to_super(self).dag())
 
     def norm(
         self,
